@@ -71,6 +71,8 @@ impl Prop for TableLayout {
         cfg.max_fields = 3;
         cfg.vft_num = 3;
         cfg.base_num = 2;
+        // doc comments before, after and between the attributes of a virtual function
+        cfg.docs = true;
         let (prog, _, _) = gen_prog(t, cfg);
         l2c::Case { prog, w }
     }
